@@ -10,7 +10,7 @@ import (
 
 func init() { register("C03", "exploration", checkC03) }
 
-var c03Elems = []string{"a", "b", "c", "a", "b", "x", "", "1", "a\r\nb"}
+var c03Elems = []string{"a", "b", "c", "a", "b", "x", "", "1", "a\r\nb", "\xc3\xa9", "\xff", "\xfe"}
 
 func c03Gen(rng *rand.Rand, m *model.Model, keys []string) []string {
 	lists := []string{"l0", "l1", "l2"}
